@@ -27,6 +27,7 @@ func runC04(c *Ctx) {
 	ruleWriterInvariant(c, p, "C04.writer")
 	rulePacketRead(c, p, "C04.packet-read")
 	ruleCloseMarks(c, p, "C04.close-marks")
+	ruleChainComplete(c, p, "C04.chain")
 	rulePacketDeadline(c, p, "C04.deadline")
 	_ = cfg
 	c.R.Assumptions = append(c.R.Assumptions,
